@@ -1,4 +1,436 @@
 /- Helper lemmas for `AuditGraph::build`. -/
 import Vet.Spec.Cert
 namespace Vet
+
+/-! ### `CSet.all` -/
+
+theorem all_testBit (n c : Nat) : (CSet.all n).testBit c = decide (c < n) := by
+  unfold CSet.all
+  rw [Nat.shiftLeft_eq, Nat.one_mul, Nat.testBit_two_pow_sub_one]
+
+/-! ### Membership characterisations of the four edge loops -/
+
+theorem auditEdges_mem {m : Mapper} {l : List (Option Nat × Nat × Audit)} {ts : List Triple}
+    (h : auditEdges m l = .ok ts) (t : Triple) :
+    t ∈ ts ↔ ∃ imp idx a c, (imp, idx, a) ∈ l ∧ m.fromList a.criteria = .ok c ∧
+      ((∃ v, a.kind = .full v ∧
+          t = ⟨none, some v, c, auditOrigin imp idx a, freshness a.fresh false⟩) ∨
+       (∃ f to, a.kind = .delta f to ∧
+          t = ⟨some f, some to, c, auditOrigin imp idx a, freshness a.fresh false⟩)) := by
+  induction l generalizing ts with
+  | nil =>
+    simp only [auditEdges, Except.ok.injEq] at h
+    subst h
+    simp
+  | cons x rest ih =>
+    obtain ⟨imp, idx, a⟩ := x
+    simp only [auditEdges] at h
+    split at h
+    · rename_i mt hk
+      rw [ih h]
+      constructor
+      · rintro ⟨imp', idx', a', c, hmem, hc, hr⟩
+        exact ⟨imp', idx', a', c, List.mem_cons_of_mem _ hmem, hc, hr⟩
+      · rintro ⟨imp', idx', a', c, hmem, hc, hr⟩
+        rcases List.mem_cons.1 hmem with heq | hmem
+        · cases heq
+          rw [hk] at hr
+          simp at hr
+        · exact ⟨imp', idx', a', c, hmem, hc, hr⟩
+    · rename_i v hk
+      split at h
+      · cases h
+      · rename_i c0 hc0
+        split at h
+        · cases h
+        · rename_i ts' hts'
+          cases h
+          rw [List.mem_cons, ih hts']
+          constructor
+          · rintro (rfl | ⟨imp', idx', a', c, hmem, hc, hr⟩)
+            · exact ⟨imp, idx, a, c0, List.mem_cons_self, hc0, Or.inl ⟨v, hk, rfl⟩⟩
+            · exact ⟨imp', idx', a', c, List.mem_cons_of_mem _ hmem, hc, hr⟩
+          · rintro ⟨imp', idx', a', c, hmem, hc, hr⟩
+            rcases List.mem_cons.1 hmem with heq | hmem
+            · cases heq
+              rw [hc0] at hc
+              cases hc
+              rw [hk] at hr
+              rcases hr with ⟨v', hv', rfl⟩ | ⟨f, to, hft, _⟩
+              · cases hv'
+                exact Or.inl rfl
+              · cases hft
+            · exact Or.inr ⟨imp', idx', a', c, hmem, hc, hr⟩
+    · rename_i f to hk
+      split at h
+      · cases h
+      · rename_i c0 hc0
+        split at h
+        · cases h
+        · rename_i ts' hts'
+          cases h
+          rw [List.mem_cons, ih hts']
+          constructor
+          · rintro (rfl | ⟨imp', idx', a', c, hmem, hc, hr⟩)
+            · exact ⟨imp, idx, a, c0, List.mem_cons_self, hc0, Or.inr ⟨f, to, hk, rfl⟩⟩
+            · exact ⟨imp', idx', a', c, List.mem_cons_of_mem _ hmem, hc, hr⟩
+          · rintro ⟨imp', idx', a', c, hmem, hc, hr⟩
+            rcases List.mem_cons.1 hmem with heq | hmem
+            · cases heq
+              rw [hc0] at hc
+              cases hc
+              rw [hk] at hr
+              rcases hr with ⟨v', hv', _⟩ | ⟨f', to', hft, rfl⟩
+              · cases hv'
+              · cases hft
+                exact Or.inl rfl
+            · exact Or.inr ⟨imp', idx', a', c, hmem, hc, hr⟩
+
+theorem wildcardEdges_mem {m : Mapper} {pi : Nat} {p : Publisher}
+    {l : List (Option Nat × Nat × Wildcard)} {ts : List Triple}
+    (h : wildcardEdges m pi p l = .ok ts) (t : Triple) :
+    t ∈ ts ↔ ∃ imp idx w c, (imp, idx, w) ∈ l ∧ grantApplies w.user w.start w.stop p = true ∧
+      m.fromList w.criteria = .ok c ∧
+      t = ⟨none, some p.version, c, .wildcard imp idx pi, freshness w.fresh p.fresh⟩ := by
+  induction l generalizing ts with
+  | nil =>
+    simp only [wildcardEdges, Except.ok.injEq] at h
+    subst h
+    simp
+  | cons x rest ih =>
+    obtain ⟨imp, idx, w⟩ := x
+    simp only [wildcardEdges] at h
+    split at h
+    · rename_i hg
+      split at h
+      · cases h
+      · rename_i c0 hc0
+        split at h
+        · cases h
+        · rename_i ts' hts'
+          cases h
+          rw [List.mem_cons, ih hts']
+          constructor
+          · rintro (rfl | ⟨imp', idx', w', c, hmem, hg', hc, hr⟩)
+            · exact ⟨imp, idx, w, c0, List.mem_cons_self, hg, hc0, rfl⟩
+            · exact ⟨imp', idx', w', c, List.mem_cons_of_mem _ hmem, hg', hc, hr⟩
+          · rintro ⟨imp', idx', w', c, hmem, hg', hc, hr⟩
+            rcases List.mem_cons.1 hmem with heq | hmem
+            · cases heq
+              rw [hc0] at hc
+              cases hc
+              exact Or.inl hr
+            · exact Or.inr ⟨imp', idx', w', c, hmem, hg', hc, hr⟩
+    · rename_i hg
+      rw [ih h]
+      constructor
+      · rintro ⟨imp', idx', w', c, hmem, hg', hc, hr⟩
+        exact ⟨imp', idx', w', c, List.mem_cons_of_mem _ hmem, hg', hc, hr⟩
+      · rintro ⟨imp', idx', w', c, hmem, hg', hc, hr⟩
+        rcases List.mem_cons.1 hmem with heq | hmem
+        · cases heq
+          exact absurd hg' hg
+        · exact ⟨imp', idx', w', c, hmem, hg', hc, hr⟩
+
+theorem trustedEdges_mem {m : Mapper} {pi : Nat} {p : Publisher}
+    {l : List Trusted} {ts : List Triple}
+    (h : trustedEdges m pi p l = .ok ts) (t : Triple) :
+    t ∈ ts ↔ ∃ e c, e ∈ l ∧ grantApplies e.user e.start e.stop p = true ∧
+      m.fromList e.criteria = .ok c ∧
+      t = ⟨none, some p.version, c, .trusted pi, freshness p.fresh false⟩ := by
+  induction l generalizing ts with
+  | nil =>
+    simp only [trustedEdges, Except.ok.injEq] at h
+    subst h
+    simp
+  | cons e0 rest ih =>
+    simp only [trustedEdges] at h
+    split at h
+    · rename_i hg
+      split at h
+      · cases h
+      · rename_i c0 hc0
+        split at h
+        · cases h
+        · rename_i ts' hts'
+          cases h
+          rw [List.mem_cons, ih hts']
+          constructor
+          · rintro (rfl | ⟨e, c, hmem, hg', hc, hr⟩)
+            · exact ⟨e0, c0, List.mem_cons_self, hg, hc0, rfl⟩
+            · exact ⟨e, c, List.mem_cons_of_mem _ hmem, hg', hc, hr⟩
+          · rintro ⟨e, c, hmem, hg', hc, hr⟩
+            rcases List.mem_cons.1 hmem with heq | hmem
+            · cases heq
+              rw [hc0] at hc
+              cases hc
+              exact Or.inl hr
+            · exact Or.inr ⟨e, c, hmem, hg', hc, hr⟩
+    · rename_i hg
+      rw [ih h]
+      constructor
+      · rintro ⟨e, c, hmem, hg', hc, hr⟩
+        exact ⟨e, c, List.mem_cons_of_mem _ hmem, hg', hc, hr⟩
+      · rintro ⟨e, c, hmem, hg', hc, hr⟩
+        rcases List.mem_cons.1 hmem with heq | hmem
+        · cases heq
+          exact absurd hg' hg
+        · exact ⟨e, c, hmem, hg', hc, hr⟩
+
+theorem publisherEdges_mem {m : Mapper} {ws : List (Option Nat × Nat × Wildcard)}
+    {tr : List Trusted} {l : List (Publisher × Nat)} {ts : List Triple}
+    (h : publisherEdges m ws tr l = .ok ts) (t : Triple) :
+    t ∈ ts ↔ ∃ p pi, (p, pi) ∈ l ∧
+      ((∃ imp idx w c, (imp, idx, w) ∈ ws ∧ grantApplies w.user w.start w.stop p = true ∧
+          m.fromList w.criteria = .ok c ∧
+          t = ⟨none, some p.version, c, .wildcard imp idx pi, freshness w.fresh p.fresh⟩) ∨
+       (∃ e c, e ∈ tr ∧ grantApplies e.user e.start e.stop p = true ∧
+          m.fromList e.criteria = .ok c ∧
+          t = ⟨none, some p.version, c, .trusted pi, freshness p.fresh false⟩)) := by
+  induction l generalizing ts with
+  | nil =>
+    simp only [publisherEdges, Except.ok.injEq] at h
+    subst h
+    simp
+  | cons x rest ih =>
+    obtain ⟨p0, pi0⟩ := x
+    simp only [publisherEdges] at h
+    split at h
+    · cases h
+    · rename_i a ha
+      split at h
+      · cases h
+      · rename_i b hb
+        split at h
+        · cases h
+        · rename_i c hc
+          cases h
+          rw [List.mem_append, List.mem_append, wildcardEdges_mem ha, trustedEdges_mem hb, ih hc]
+          constructor
+          · rintro ((hw | ht) | ⟨p, pi, hmem, hr⟩)
+            · exact ⟨p0, pi0, List.mem_cons_self, Or.inl hw⟩
+            · exact ⟨p0, pi0, List.mem_cons_self, Or.inr ht⟩
+            · exact ⟨p, pi, List.mem_cons_of_mem _ hmem, hr⟩
+          · rintro ⟨p, pi, hmem, hr⟩
+            rcases List.mem_cons.1 hmem with heq | hmem
+            · cases heq
+              rcases hr with hw | ht
+              · exact Or.inl (Or.inl hw)
+              · exact Or.inl (Or.inr ht)
+            · exact Or.inr ⟨p, pi, hmem, hr⟩
+
+theorem unpubEdges_mem (m : Mapper) (us : List (Unpub × Nat)) (t : Triple) :
+    t ∈ unpubEdges m us ↔ ∃ u i, (u, i) ∈ us ∧
+      t = ⟨some u.auditedAs, some u.version, m.all, .unpublished i, freshness u.fresh false⟩ := by
+  unfold unpubEdges
+  rw [List.mem_map]
+  constructor
+  · rintro ⟨⟨u, i⟩, hmem, rfl⟩
+    exact ⟨u, i, hmem, rfl⟩
+  · rintro ⟨u, i, hmem, rfl⟩
+    exact ⟨(u, i), hmem, rfl⟩
+
+theorem exemptionEdges_mem {m : Mapper} {l : List (Exemption × Nat)} {ts : List Triple}
+    (h : exemptionEdges m l = .ok ts) (t : Triple) :
+    t ∈ ts ↔ ∃ x i c, (x, i) ∈ l ∧ m.fromList x.criteria = .ok c ∧
+      t = ⟨none, some x.version, c, .exemption i, 0⟩ := by
+  induction l generalizing ts with
+  | nil =>
+    simp only [exemptionEdges, Except.ok.injEq] at h
+    subst h
+    simp
+  | cons y rest ih =>
+    obtain ⟨x0, i0⟩ := y
+    simp only [exemptionEdges] at h
+    split at h
+    · cases h
+    · rename_i c0 hc0
+      split at h
+      · cases h
+      · rename_i ts' hts'
+        cases h
+        rw [List.mem_cons, ih hts']
+        constructor
+        · rintro (rfl | ⟨x, i, c, hmem, hc, hr⟩)
+          · exact ⟨x0, i0, c0, List.mem_cons_self, hc0, rfl⟩
+          · exact ⟨x, i, c, List.mem_cons_of_mem _ hmem, hc, hr⟩
+        · rintro ⟨x, i, c, hmem, hc, hr⟩
+          rcases List.mem_cons.1 hmem with heq | hmem
+          · cases heq
+            rw [hc0] at hc
+            cases hc
+            exact Or.inl hr
+          · exact Or.inr ⟨x, i, c, hmem, hc, hr⟩
+
+/-! ### Inversion of `build` -/
+
+theorem build_ok_inv {s : Store} {m : Mapper} {name : Nat} {r : BuildResult}
+    (h : build s m name = .ok r) :
+    ∃ e1 e2 e4 cs, auditEdges m (allAudits s name) = .ok e1 ∧
+      publisherEdges m (allWildcards s name) (getL name s.trusted)
+        (getL name s.publishers).zipIdx = .ok e2 ∧
+      exemptionEdges m (getL name s.exemptions).zipIdx = .ok e4 ∧
+      violationConflicts m (getL name s.exemptions) (allAudits s name) (allAudits s name) = .ok cs ∧
+      ((cs = [] ∧ r = .graph ⟨e1 ++ e2 ++ unpubEdges m (getL name s.unpublished).zipIdx ++ e4⟩) ∨
+       (cs ≠ [] ∧ r = .conflicts cs)) := by
+  simp only [build] at h
+  split at h
+  · cases h
+  · rename_i e1 h1
+    split at h
+    · cases h
+    · rename_i e2 h2
+      split at h
+      · cases h
+      · rename_i e4 h4
+        split at h
+        · cases h
+        · rename_i h5
+          cases h
+          exact ⟨e1, e2, e4, [], h1, h2, h4, h5, Or.inl ⟨rfl, rfl⟩⟩
+        · rename_i cs hne h5
+          cases h
+          refine ⟨e1, e2, e4, cs, h1, h2, h4, h5, Or.inr ⟨?_, rfl⟩⟩
+          rintro rfl
+          exact hne rfl
+
+theorem build_graph_inv {s : Store} {m : Mapper} {name : Nat} {g : Graph}
+    (h : build s m name = .ok (.graph g)) :
+    ∃ e1 e2 e4, auditEdges m (allAudits s name) = .ok e1 ∧
+      publisherEdges m (allWildcards s name) (getL name s.trusted)
+        (getL name s.publishers).zipIdx = .ok e2 ∧
+      exemptionEdges m (getL name s.exemptions).zipIdx = .ok e4 ∧
+      violationConflicts m (getL name s.exemptions) (allAudits s name) (allAudits s name) = .ok [] ∧
+      g.edges = e1 ++ e2 ++ unpubEdges m (getL name s.unpublished).zipIdx ++ e4 := by
+  obtain ⟨e1, e2, e4, cs, h1, h2, h4, h5, hr⟩ := build_ok_inv h
+  rcases hr with ⟨rfl, hg⟩ | ⟨_, hg⟩
+  · cases hg
+    exact ⟨e1, e2, e4, h1, h2, h4, h5, rfl⟩
+  · cases hg
+
+/-! ### The conflict check -/
+
+theorem violationSets_mem {m : Mapper} {l : List Nat} {vs : List CSet}
+    (h : violationSets m l = .ok vs) {vc : Nat} (hvc : vc ∈ l) {s : CSet}
+    (hs : m.fromList [vc] = .ok s) : s ∈ vs := by
+  induction l generalizing vs with
+  | nil => cases hvc
+  | cons c rest ih =>
+    simp only [violationSets] at h
+    split at h
+    · cases h
+    · rename_i s0 hs0
+      split at h
+      · cases h
+      · rename_i ss hss
+        cases h
+        rcases List.mem_cons.1 hvc with rfl | hmem
+        · rw [hs0] at hs
+          cases hs
+          exact List.mem_cons_self
+        · exact List.mem_cons_of_mem _ (ih hss hmem)
+
+theorem hits_of_mem {vs : List CSet} {c v : CSet} (hv : v ∈ vs)
+    (hsub : CSet.containsSet c v = true) : hits vs c = true := by
+  unfold hits
+  rw [List.any_eq_true]
+  exact ⟨v, hv, hsub⟩
+
+theorem exemptionConflicts_nil {m : Mapper} {vsrc : Option Nat} {viol : Audit}
+    {matched : List Nat} {vs : List CSet} {exs : List Exemption}
+    (h : exemptionConflicts m vsrc viol matched vs exs = .ok []) {x : Exemption} (hx : x ∈ exs)
+    {c : CSet} (hc : m.fromList x.criteria = .ok c) :
+    (hits vs c && matched.contains x.version) = false := by
+  induction exs with
+  | nil => cases hx
+  | cons x0 rest ih =>
+    simp only [exemptionConflicts] at h
+    split at h
+    · cases h
+    · rename_i c0 hc0
+      split at h
+      · cases h
+      · rename_i cs hcs
+        split at h
+        · cases h
+        · rename_i hcond
+          cases h
+          rcases List.mem_cons.1 hx with rfl | hmem
+          · rw [hc0] at hc
+            cases hc
+            simpa using hcond
+          · exact ih hcs hmem
+
+theorem auditConflicts_nil {m : Mapper} {vsrc : Option Nat} {viol : Audit}
+    {matched : List Nat} {vs : List CSet} {l : List (Option Nat × Nat × Audit)}
+    (h : auditConflicts m vsrc viol matched vs l = .ok []) {imp : Option Nat} {idx : Nat}
+    {a : Audit} (ha : (imp, idx, a) ∈ l) {c : CSet} (hc : m.fromList a.criteria = .ok c) :
+    (hits vs c && touches matched a.kind) = false := by
+  induction l with
+  | nil => cases ha
+  | cons y rest ih =>
+    obtain ⟨imp0, idx0, a0⟩ := y
+    simp only [auditConflicts] at h
+    split at h
+    · cases h
+    · rename_i c0 hc0
+      split at h
+      · cases h
+      · rename_i cs hcs
+        split at h
+        · cases h
+        · rename_i hcond
+          cases h
+          rcases List.mem_cons.1 ha with heq | hmem
+          · cases heq
+            rw [hc0] at hc
+            cases hc
+            simpa using hcond
+          · exact ih hcs hmem
+
+theorem violationConflicts_nil {m : Mapper} {exs : List Exemption}
+    {audits vl : List (Option Nat × Nat × Audit)}
+    (h : violationConflicts m exs audits vl = .ok []) {vsrc : Option Nat} {vidx : Nat}
+    {viol : Audit} (hv : (vsrc, vidx, viol) ∈ vl) {matched : List Nat}
+    (hk : viol.kind = .violation matched) :
+    ∃ vs, violationSets m viol.criteria = .ok vs ∧
+      exemptionConflicts m vsrc viol matched vs exs = .ok [] ∧
+      auditConflicts m vsrc viol matched vs audits = .ok [] := by
+  induction vl with
+  | nil => cases hv
+  | cons y rest ih =>
+    obtain ⟨vsrc0, vidx0, viol0⟩ := y
+    simp only [violationConflicts] at h
+    split at h
+    · rename_i matched0 hk0
+      split at h
+      · cases h
+      · rename_i vs hvs
+        split at h
+        · cases h
+        · rename_i c1 hc1
+          split at h
+          · cases h
+          · rename_i c2 hc2
+            split at h
+            · cases h
+            · rename_i c3 hc3
+              simp only [Except.ok.injEq, List.append_eq_nil_iff] at h
+              obtain ⟨⟨rfl, rfl⟩, rfl⟩ := h
+              rcases List.mem_cons.1 hv with heq | hmem
+              · cases heq
+                rw [hk0] at hk
+                cases hk
+                exact ⟨vs, hvs, hc1, hc2⟩
+              · exact ih hc3 hmem
+    · rename_i hnot
+      rcases List.mem_cons.1 hv with heq | hmem
+      · cases heq
+        exact absurd hk (hnot matched)
+      · exact ih h hmem
+
+theorem grantApplies_iff {user start stop : Nat} {p : Publisher} :
+    grantApplies user start stop p = true ↔ user = p.user ∧ start ≤ p.day ∧ p.day < stop := by
+  simp only [grantApplies, Bool.and_eq_true, beq_iff_eq, decide_eq_true_eq, and_assoc]
+
 end Vet
